@@ -900,3 +900,58 @@ pub fn cmd_panics(args: &Args) -> J {
         ("samples", J::Arr(samples)),
     ])
 }
+
+/// `facade-conf`: runs blocks of the precompile family (free, under controller schedules and
+/// sequentially) with the instrumented test precompiles, then replays every logged precompile
+/// invocation (static flag, facade calls, what each returned) through the Lean facade model.
+pub fn cmd_facade_conf(args: &Args) -> J {
+    let seed = args.num("seed", 1);
+    let cases = args.num("cases", 60);
+    let gmodel = args.str("gmodel", "/verif/lean/.lake/build/bin/gmodel");
+    blocks::FACADE_LOG.lock().unwrap().clear();
+    let mut stats = Stats::new();
+    let mut divergences = Vec::new();
+    for case in 0..cases {
+        let cs = CaseSpec { family: "precompile".to_owned(), case, n_txs: 2 + case_rng(seed ^ 0xfc, "precompile", case).below(8) };
+        let block = make_block(seed, &cs);
+        let configs = parse_configs("w2,seq", block.txs.len());
+        for d in check_block(seed, &cs, &block, &configs, &["random", "pct", "sticky"], 1, &mut stats, "oracle") {
+            if divergences.len() < 4 {
+                divergences.push(d);
+            }
+        }
+    }
+    let log = std::mem::take(&mut *blocks::FACADE_LOG.lock().unwrap());
+    let mut session = String::from("facade\n");
+    let mut shapes: BTreeMap<String, u64> = BTreeMap::new();
+    for (is_static, calls) in &log {
+        let line = format!("{} {}", *is_static as u8, calls.iter().map(|(o, r)| format!("{o}{r}")).collect::<Vec<_>>().join(" "));
+        *shapes.entry(line.clone()).or_default() += 1;
+        session.push_str(&line);
+        session.push('\n');
+    }
+    session.push_str("end\n");
+    let mut ok = 0usize;
+    match lean::run_gmodel(&gmodel, &session) {
+        Err(e) => divergences.push(J::obj(vec![("kind", J::s("correspondence")), ("detail", J::s(e))])),
+        Ok(lines) => {
+            let l = lines.first().cloned().unwrap_or_default();
+            if l.starts_with("ok ") {
+                ok = log.len();
+            } else {
+                divergences.push(J::obj(vec![("kind", J::s("correspondence")), ("detail", J::s(format!("facade call log vs Lean model: {l}")))]));
+            }
+        }
+    }
+    J::obj(vec![
+        ("check", J::s("facade-conformance (logged precompile invocations vs Lean Model/Facade)")),
+        ("seed", J::n(seed as usize)),
+        ("cases", J::n(log.len())),
+        ("conforming", J::n(ok)),
+        ("distinct_nontrivial", J::n(shapes.len())),
+        ("invocation_shapes", J::Obj(shapes.into_iter().map(|(k, v)| (k, J::n(v as usize))).collect())),
+        ("static_invocations", J::n(log.iter().filter(|(s, _)| *s).count())),
+        ("divergences", J::Arr(divergences)),
+        ("samples", J::Arr(vec![])),
+    ])
+}
